@@ -874,7 +874,13 @@ fn judge(case: &NetCase, obs: &Obs, end_tasks: &[TaskInfo], out: &mut Outcome, w
                     v.props.push("C13".to_string());
                 }
                 if faulty {
+                    // C13's second sentence ("send what remains when flushed or dropped") keeps
+                    // its conservation clauses even after a refused send; the rest is C07's
+                    let remains = matches!(v.clause.as_str(), "linebuf.flush-ok-but-still-buffered" | "linebuf.drop-left-metrics-unwritten" | "linebuf.bypass-not-written" | "linebuf.ok-despite-failure");
                     v.props.retain(|p| p != "C13" && p != "C05" && p != "C06" && p != "C19");
+                    if remains {
+                        v.props.push("C13".into());
+                    }
                     if !v.props.iter().any(|p| p == "C07") {
                         v.props.push("C07".into());
                     }
